@@ -44,7 +44,10 @@ def make_case(seed, work, cfg_filter=None, extra_cflags=(), max_tries=40, yaml_t
         dn = dname or rnd.choice(pool)['name']
         exe, files = hrt.build_runner(cfg, ir, dn, os.path.join(work, f'c{seed}'), extra_cflags=extra_cflags)
         if exe is None:
-            return ('compile-failed', text, files, rejected)
+            # whose fault: does the generated source compile on its own (plain gcc, no runner)?
+            fpx = ir['prefix']['file']
+            rc_alone, log_alone = common.cc(['gcc', '-c', f'{fpx}.c', '-o', 'alone.o'], cwd=os.path.join(work, f'c{seed}'))
+            return ('compile-failed', text, files, rejected, rc_alone == 0, log_alone)
         openargs, recs = hrt.gen_pool(rnd, ir, dn, nrec=nrec, darr_len=darr_len)
         hdr, sizes = hrt.probe(exe, ir, dn, openargs, recs)
         cs = Case(seed, text, cfg, ir, dn, exe, openargs, recs, hdr, sizes)
@@ -142,7 +145,16 @@ def run_rt(c, oracle, nconfigs, nhist, gen_hist=None, cfg_filter=None, hist_kwar
     c.coverage.setdefault('samples', [])
     c.coverage['samples'] += samples
     for m in compile_failed[:3]:
-        c.inconclusive.append('generated tracer + runner does not compile: ' + m[2][:300])
+        if len(m) > 4 and not m[4]:
+            # the generated C source itself is rejected by the compiler, for a configuration the front end accepted:
+            # there is no tracer, so no property of the tracer holds for this configuration
+            if not c.violations:
+                c.violation({'property': c.id, 'kind': 'the generated tracer does not compile '
+                             '(gcc, default flags, no harness code involved) for a configuration the front end accepts: no '
+                             'tracer exists for it, so the property does not hold', 'config_yaml': m[1],
+                             'compiler': m[5][:1500]})
+        else:
+            c.inconclusive.append('generated tracer + runner does not compile: ' + m[2][:300])
     return cases, disagreements, stats
 
 
